@@ -1,27 +1,389 @@
+//! bvsim: deterministic simulation with fault injection for haxelion/bva.
+//!   bvsim run --prop C13 --tier quick --seed N --runs N --threads N --out FILE --replay-dir DIR
+//!   bvsim replay FILE            re-executes a trace file and prints the violation line (if any)
+//!   bvsim selftest --prop C13 --runs N    determinism proof: same records under 1 and 16 workers, twice
 mod rng;
 #[macro_use]
 mod types;
 mod battery;
 mod exec;
+mod gen;
 mod guard;
 mod model;
 mod seams;
+mod shrink;
 mod trace;
+
+use exec::Outcome;
+use std::collections::{BTreeMap, BTreeSet};
+use std::sync::atomic::{AtomicU64, Ordering};
+use std::sync::Mutex;
+
+pub const PROFILE: &str = if cfg!(debug_assertions) { "dbg" } else { "rel" };
+pub const DBG: bool = cfg!(debug_assertions);
+
+fn jstr(s: &str) -> String {
+    let mut o = String::from("\"");
+    for c in s.chars() {
+        match c {
+            '"' => o += "\\\"",
+            '\\' => o += "\\\\",
+            '\n' => o += "\\n",
+            '\t' => o += "\\t",
+            c if (c as u32) < 0x20 => o += &format!("\\u{:04x}", c as u32),
+            c => o.push(c),
+        }
+    }
+    o.push('"');
+    o
+}
+
+fn arg<'a>(args: &'a [String], name: &str) -> Option<&'a str> {
+    args.iter().position(|a| a == name).and_then(|i| args.get(i + 1)).map(|s| s.as_str())
+}
+
+#[derive(Clone)]
+struct RunRecord {
+    idx: u64,
+    trace_hash: u64,
+    outcome_digest: u64,
+}
+
+fn digest_outcome(o: &Outcome) -> u64 {
+    let mut s = String::new();
+    if let Some(v) = &o.violation {
+        s += &format!("{}|{}|{}|{}", v.signature(), v.step, v.msg, v.tname);
+    }
+    s += &format!("|{:?}|{:?}|{:?}|{}|{}|{:?}", o.stats, o.foreign, o.harness_error, o.oracle_evals, o.nontrivial, o.states);
+    let mut h: u64 = 0xcbf29ce484222325;
+    for b in s.bytes() {
+        h ^= b as u64;
+        h = h.wrapping_mul(0x100000001b3);
+    }
+    h
+}
+
+struct Agg {
+    stats: BTreeMap<&'static str, u64>,
+    foreign: BTreeMap<String, u64>,
+    distinct_nontrivial: BTreeSet<u64>,
+    distinct_traces: BTreeSet<u64>,
+    states: BTreeSet<u32>,
+    steps: u64,
+    oracle_evals: u64,
+    violations: Vec<(u64, trace::Trace, exec::Violation)>,
+    harness: Vec<(u64, String)>,
+    samples: BTreeMap<&'static str, (u64, String)>,
+    records: Vec<RunRecord>,
+    recheck_mismatch: Vec<u64>,
+    types: BTreeSet<u8>,
+}
+
+fn run_batch(prop: &str, tier: gen::Tier, seed: u64, runs: u64, threads: usize, keep_records: bool) -> Agg {
+    let agg = Mutex::new(Agg {
+        stats: BTreeMap::new(),
+        foreign: BTreeMap::new(),
+        distinct_nontrivial: BTreeSet::new(),
+        distinct_traces: BTreeSet::new(),
+        states: BTreeSet::new(),
+        steps: 0,
+        oracle_evals: 0,
+        violations: vec![],
+        harness: vec![],
+        samples: BTreeMap::new(),
+        records: vec![],
+        recheck_mismatch: vec![],
+        types: BTreeSet::new(),
+    });
+    let next = AtomicU64::new(0);
+    let pidx = gen::prop_index(prop);
+    std::thread::scope(|sc| {
+        for _ in 0..threads {
+            sc.spawn(|| {
+                guard::install_hook();
+                let mut local_stats: BTreeMap<&'static str, u64> = BTreeMap::new();
+                let mut local_foreign: BTreeMap<String, u64> = BTreeMap::new();
+                let mut local_nt: Vec<u64> = vec![];
+                let mut local_tr: Vec<u64> = vec![];
+                let mut local_states: BTreeSet<u32> = BTreeSet::new();
+                let mut local_types: BTreeSet<u8> = BTreeSet::new();
+                let mut local_steps = 0u64;
+                let mut local_evals = 0u64;
+                let mut local_records = vec![];
+                loop {
+                    let idx = next.fetch_add(1, Ordering::Relaxed);
+                    if idx >= runs {
+                        break;
+                    }
+                    let rs = rng::derive(seed, pidx, idx);
+                    let t = gen::gen(prop, rs, tier);
+                    let th = t.hash();
+                    let (o, _) = exec::Exec::new(&t, DBG, false).run();
+                    // 1 % of runs are re-executed on the spot and compared
+                    if idx % 100 == 7 {
+                        let (o2, _) = exec::Exec::new(&t, DBG, false).run();
+                        if digest_outcome(&o) != digest_outcome(&o2) {
+                            agg.lock().unwrap().recheck_mismatch.push(idx);
+                        }
+                    }
+                    for (k, v) in &o.stats {
+                        *local_stats.entry(k).or_insert(0) += v;
+                    }
+                    for (k, v) in &o.foreign {
+                        *local_foreign.entry(k.clone()).or_insert(0) += v;
+                    }
+                    local_tr.push(th);
+                    if o.oracle_evals > 0 && o.nontrivial {
+                        local_nt.push(th);
+                    }
+                    for s in &o.states {
+                        local_states.insert(*s);
+                    }
+                    for h in &t.holders {
+                        local_types.insert(h.tid);
+                    }
+                    local_steps += o.steps_run as u64;
+                    local_evals += o.oracle_evals;
+                    if keep_records {
+                        local_records.push(RunRecord { idx, trace_hash: th, outcome_digest: digest_outcome(&o) });
+                    }
+                    let hard = o.stats.keys().any(|k| k.contains("hard") || k.contains("F4") || k.contains("zero_write") || *k == "panic_bva" || *k == "survivor_observed");
+                    let class: &'static str = if !o.nontrivial { "fault_free" } else if hard { "hard_fault_or_survivor" } else { "benign_faults_or_perturbations" };
+                    if o.harness_error.is_some() || o.violation.is_some() || idx < 400 {
+                        let mut a = agg.lock().unwrap();
+                        if let Some(e) = &o.harness_error {
+                            a.harness.push((idx, e.clone()));
+                        }
+                        if let Some(v) = &o.violation {
+                            a.violations.push((idx, t.clone(), v.clone()));
+                        }
+                        if o.violation.is_none() && o.oracle_evals > 0 {
+                            let better = match a.samples.get(class) {
+                                None => true,
+                                Some((i, _)) => idx < *i,
+                            };
+                            if better {
+                                a.samples.insert(class, (idx, t.to_text()));
+                            }
+                        }
+                    }
+                }
+                let mut a = agg.lock().unwrap();
+                for (k, v) in local_stats {
+                    *a.stats.entry(k).or_insert(0) += v;
+                }
+                for (k, v) in local_foreign {
+                    *a.foreign.entry(k).or_insert(0) += v;
+                }
+                a.distinct_nontrivial.extend(local_nt);
+                a.distinct_traces.extend(local_tr);
+                a.states.extend(local_states);
+                a.types.extend(local_types);
+                a.steps += local_steps;
+                a.oracle_evals += local_evals;
+                a.records.extend(local_records);
+            });
+        }
+    });
+    let mut a = agg.into_inner().unwrap();
+    a.violations.sort_by_key(|v| v.0);
+    a.harness.sort_by_key(|v| v.0);
+    a.records.sort_by_key(|r| r.idx);
+    a
+}
+
+fn cmd_run(args: &[String]) -> i32 {
+    let prop = arg(args, "--prop").expect("--prop");
+    let tier = if arg(args, "--tier") == Some("thorough") { gen::Tier::Thorough } else { gen::Tier::Quick };
+    let seed: u64 = arg(args, "--seed").and_then(|s| s.parse().ok()).unwrap_or(20261002);
+    let runs: u64 = arg(args, "--runs").and_then(|s| s.parse().ok()).unwrap_or(1000);
+    let threads: usize = arg(args, "--threads").and_then(|s| s.parse().ok()).unwrap_or(16);
+    let out = arg(args, "--out").expect("--out");
+    let replay_dir = arg(args, "--replay-dir").unwrap_or("replays");
+    let max_report: usize = arg(args, "--max-report").and_then(|s| s.parse().ok()).unwrap_or(6);
+    let t0 = std::time::Instant::now();
+    let a = run_batch(prop, tier, seed, runs, threads, false);
+    let sim_s = t0.elapsed().as_secs_f64();
+    // ---- violations: group by signature (first occurrence by run index), shrink, write replay files
+    let mut seen: BTreeMap<String, usize> = BTreeMap::new();
+    let mut reported = vec![];
+    for (idx, t, v) in &a.violations {
+        let sig = v.signature();
+        let c = seen.entry(sig.clone()).or_insert(0);
+        *c += 1;
+        if *c > 1 || reported.len() >= max_report {
+            continue;
+        }
+        let (mut small, execs) = shrink::shrink(t, DBG, &sig, 2000);
+        let o = shrink::run_trace(&small, DBG);
+        let vv = o.violation.clone().expect("shrunk trace must still violate");
+        small.profile = Some(PROFILE.to_string());
+        small.expect = Some(vv.line(prop));
+        let _ = std::fs::create_dir_all(replay_dir);
+        let path = format!("{}/{}-{}-{}-{:016x}.trace", replay_dir, prop, PROFILE, seed, small.hash());
+        std::fs::write(&path, small.to_text()).expect("write replay");
+        reported.push((*idx, sig, vv, path, t.steps.len(), small.steps.len(), execs));
+    }
+    // ---- evidence part (merged by ./check)
+    let mut j = String::from("{\n");
+    j += &format!(" \"property_id\": {},\n \"profile\": {},\n \"seed\": {},\n \"runs\": {},\n \"threads\": {},\n", jstr(prop), jstr(PROFILE), seed, runs, threads);
+    j += &format!(" \"tier\": {},\n", jstr(if tier == gen::Tier::Quick { "quick" } else { "thorough" }));
+    j += &format!(" \"sim_wall_s\": {:.3},\n \"wall_s\": {:.3},\n", sim_s, t0.elapsed().as_secs_f64());
+    j += &format!(" \"runs_per_hour\": {},\n", if sim_s > 0.0 { (runs as f64 / sim_s * 3600.0) as u64 } else { 0 });
+    j += &format!(" \"steps_total\": {},\n \"oracle_evaluations\": {},\n", a.steps, a.oracle_evals);
+    j += &format!(" \"distinct_traces\": {},\n \"distinct_nontrivial\": {},\n \"distinct_states\": {},\n", a.distinct_traces.len(), a.distinct_nontrivial.len(), a.states.len());
+    j += &format!(" \"types_exercised\": [{}],\n", a.types.iter().map(|t| jstr(types::TYPE_NAMES[*t as usize])).collect::<Vec<_>>().join(", "));
+    j += &format!(" \"counters\": {{{}}},\n", a.stats.iter().map(|(k, v)| format!("{}: {}", jstr(k), v)).collect::<Vec<_>>().join(", "));
+    j += &format!(" \"foreign_observations\": {{{}}},\n", a.foreign.iter().map(|(k, v)| format!("{}: {}", jstr(k), v)).collect::<Vec<_>>().join(", "));
+    j += &format!(" \"recheck_mismatches\": {},\n", a.recheck_mismatch.len());
+    j += &format!(" \"harness_errors\": [{}],\n", a.harness.iter().take(5).map(|(i, e)| jstr(&format!("run {}: {}", i, e))).collect::<Vec<_>>().join(", "));
+    j += &format!(" \"harness_error_count\": {},\n", a.harness.len());
+    j += &format!(" \"violating_runs\": {},\n", a.violations.len());
+    j += &format!(" \"violation_signatures\": {{{}}},\n", seen.iter().map(|(k, v)| format!("{}: {}", jstr(k), v)).collect::<Vec<_>>().join(", "));
+    j += " \"violations\": [\n";
+    j += &reported
+        .iter()
+        .map(|(idx, sig, v, path, n0, n1, execs)| {
+            format!(
+                "  {{\"run\": {}, \"signature\": {}, \"oracle\": {}, \"kind\": {}, \"type\": {}, \"message\": {}, \"replay\": {}, \"steps_before\": {}, \"steps_after\": {}, \"shrink_execs\": {}, \"count\": {}}}",
+                idx,
+                jstr(sig),
+                jstr(&v.oracle),
+                jstr(&v.kind),
+                jstr(&v.tname),
+                jstr(&v.msg),
+                jstr(path),
+                n0,
+                n1,
+                execs,
+                seen[sig]
+            )
+        })
+        .collect::<Vec<_>>()
+        .join(",\n");
+    j += "\n ],\n";
+    j += &format!(" \"samples\": [{}]\n}}\n", a.samples.iter().map(|(k, (i, t))| format!("{{\"class\": {}, \"run\": {}, \"trace\": {}}}", jstr(k), i, jstr(t))).collect::<Vec<_>>().join(", "));
+    std::fs::write(out, j).expect("write evidence part");
+    if !a.harness.is_empty() || !a.recheck_mismatch.is_empty() {
+        eprintln!("bvsim: harness errors: {:?} recheck mismatches: {:?}", a.harness.iter().take(3).collect::<Vec<_>>(), a.recheck_mismatch);
+        return 2;
+    }
+    if a.violations.is_empty() {
+        0
+    } else {
+        1
+    }
+}
+
+fn cmd_replay(args: &[String]) -> i32 {
+    let path = &args[2];
+    let verbose = args.iter().any(|a| a == "-v");
+    let text = match std::fs::read_to_string(path) {
+        Ok(t) => t,
+        Err(e) => {
+            eprintln!("bvsim: cannot read {}: {}", path, e);
+            return 2;
+        }
+    };
+    let t = match trace::Trace::parse(&text) {
+        Ok(t) => t,
+        Err(e) => {
+            eprintln!("bvsim: cannot parse {}: {}", path, e);
+            return 2;
+        }
+    };
+    if let Some(p) = &t.profile {
+        if p != PROFILE {
+            eprintln!("bvsim: trace is for profile {} but this binary is {}", p, PROFILE);
+            return 3;
+        }
+    }
+    let (o, log) = exec::Exec::new(&t, DBG, verbose).run();
+    if verbose {
+        for l in log.unwrap_or_default() {
+            println!("  {}", l);
+        }
+    }
+    if let Some(e) = &o.harness_error {
+        eprintln!("bvsim: harness error: {}", e);
+        return 2;
+    }
+    match &o.violation {
+        Some(v) => {
+            let line = v.line(&t.property);
+            println!("{}", line);
+            println!("signature {}", v.signature());
+            println!("message {}", v.msg);
+            if let Some(e) = &t.expect {
+                if *e != line {
+                    println!("MISMATCH expected: {}", e);
+                    return 2;
+                }
+            }
+            1
+        }
+        None => {
+            println!("no violation");
+            if t.expect.is_some() && !args.iter().any(|a| a == "--allow-pass") {
+                println!("MISMATCH expected: {}", t.expect.unwrap());
+                return 4;
+            }
+            0
+        }
+    }
+}
+
+fn cmd_selftest(args: &[String]) -> i32 {
+    let runs: u64 = arg(args, "--runs").and_then(|s| s.parse().ok()).unwrap_or(2000);
+    let seed: u64 = arg(args, "--seed").and_then(|s| s.parse().ok()).unwrap_or(20261002);
+    let props: Vec<String> = match arg(args, "--prop") {
+        Some(p) => vec![p.to_string()],
+        None => ["C03", "C07", "C10", "C12", "C13", "C16", "C17", "C18", "C19"].iter().map(|s| s.to_string()).collect(),
+    };
+    let mut bad = 0;
+    for p in &props {
+        let a = run_batch(p, gen::Tier::Quick, seed, runs, 1, true);
+        let b = run_batch(p, gen::Tier::Quick, seed, runs, 16, true);
+        let c = run_batch(p, gen::Tier::Quick, seed, runs, 5, true);
+        let mut diff = 0;
+        for ((x, y), z) in a.records.iter().zip(b.records.iter()).zip(c.records.iter()) {
+            if x.idx != y.idx || x.trace_hash != y.trace_hash || x.outcome_digest != y.outcome_digest || z.outcome_digest != x.outcome_digest || z.trace_hash != x.trace_hash {
+                diff += 1;
+            }
+        }
+        let mut all: u64 = 0xcbf29ce484222325;
+        for r in &a.records {
+            all = (all ^ r.trace_hash ^ r.outcome_digest.rotate_left(13)).wrapping_mul(0x100000001b3);
+        }
+        println!("selftest {} profile={} runs={} workers=1/16/5 differing_records={} batch_digest={:016x}", p, PROFILE, runs, diff, all);
+        if diff > 0 || a.records.len() != runs as usize {
+            bad += 1;
+        }
+    }
+    if bad > 0 {
+        2
+    } else {
+        0
+    }
+}
 
 fn main() {
     guard::install_hook();
     let args: Vec<String> = std::env::args().collect();
-    let dbg = cfg!(debug_assertions);
-    match args.get(1).map(|s| s.as_str()) {
-        Some("replay") => {
-            let text = std::fs::read_to_string(&args[2]).expect("read trace");
-            let t = trace::Trace::parse(&text).expect("parse trace");
-            let (out, log) = exec::Exec::new(&t, dbg, true).run();
-            for l in log.unwrap_or_default() {
-                println!("  {}", l);
-            }
-            println!("{:?}", out);
+    let code = match args.get(1).map(|s| s.as_str()) {
+        Some("run") => cmd_run(&args),
+        Some("replay") if args.len() >= 3 => cmd_replay(&args),
+        Some("selftest") => cmd_selftest(&args),
+        Some("gen") => {
+            let prop = arg(&args, "--prop").expect("--prop");
+            let seed: u64 = arg(&args, "--seed").and_then(|s| s.parse().ok()).unwrap_or(1);
+            print!("{}", gen::gen(prop, seed, gen::Tier::Quick).to_text());
+            0
         }
-        _ => eprintln!("usage"),
-    }
+        _ => {
+            eprintln!("usage: bvsim run|replay|selftest|gen ...");
+            2
+        }
+    };
+    std::process::exit(code);
 }
